@@ -1,0 +1,141 @@
+//go:build verif
+
+package v0
+
+// Contracts for the deductive checks in /verif (read by /verif/govc; comment-only, no code).
+
+//@ import mempool github.com/tendermint/tendermint/mempool
+//@ import clist github.com/tendermint/tendermint/libs/clist
+
+// txOf(e): the transaction carried by list element e; keyOf(tx): its key (sha256).
+//@ spec func txOf(e *clist.CElement) []byte = cast(*mempoolTx, payload(e.Value)).tx
+//@ spec func keyOf(tx []byte) []byte = sha256sum(tx)
+
+// Representation invariant of the pool: the key index and the list describe the same set of transactions.
+//  listInMap: every element of the list is the map's entry for the key of its transaction
+//             (hence no two elements of the list carry the same transaction);
+//  mapInList: every entry of the map is an element of the list carrying a transaction with that key.
+//@ spec func listInMap(mem *CListMempool) bool =
+//@   | forall(e, (e != 0 && cast(*clist.CElement, e).owner == mem.txs) ==>
+//@   |   (shas(mem.txsMap, keyOf(txOf(cast(*clist.CElement, e)))) && sget(mem.txsMap, keyOf(txOf(cast(*clist.CElement, e)))) == e))
+//@ spec func mapInList(mem *CListMempool) bool =
+//@   | forall(k, shas(mem.txsMap, k) ==>
+//@   |   (sget(mem.txsMap, k) != 0 && cast(*clist.CElement, sget(mem.txsMap, k)).owner == mem.txs && keyOf(txOf(cast(*clist.CElement, sget(mem.txsMap, k)))) == k))
+//@ spec func wfPool(mem *CListMempool) bool = mem.txs != nil && mem.config != nil && listInMap(mem) && mapInList(mem)
+//@ spec func withinLimits(mem *CListMempool) bool = mem.txs.len <= mem.config.Size && mem.txsBytes <= mem.config.MaxTxsBytes
+
+//@ func CListMempool.isFull
+//@   assigns nothing
+//@   ensures exact: result == nil <==> (mem.txs.len < mem.config.Size && txSize + mem.txsBytes <= mem.config.MaxTxsBytes)
+
+//@ func CListMempool.addTx
+//@   checks allocwf
+//@   assigns mem.txsBytes, syncmaps, all(clist.CList.len), all(clist.CList.head), all(clist.CList.tail), all(clist.CList.wg), all(clist.CList.waitCh), all(clist.CElement.owner), all(clist.CElement.removed), all(clist.CElement.next), all(clist.CElement.prev), all(clist.CElement.Value)
+//@   requires wf: wfPool(mem)
+//@   requires fresh: memTx != nil && !shas(mem.txsMap, keyOf(memTx.tx))
+//@   requires room: mem.txs.len < mem.config.Size && len(memTx.tx) + mem.txsBytes <= mem.config.MaxTxsBytes && withinLimits(mem)
+//@   ensures wf: wfPool(mem)
+//@   ensures added: shas(mem.txsMap, keyOf(memTx.tx)) && mem.txs.len == old(mem.txs.len) + 1 && mem.txsBytes == old(mem.txsBytes) + len(memTx.tx)
+//@   ensures limits: withinLimits(mem)
+
+//@ func CListMempool.removeTx
+//@   assigns mem.txsBytes, syncmaps, all(clist.CList.len), all(clist.CList.head), all(clist.CList.tail), all(clist.CList.wg), all(clist.CList.waitCh), all(clist.CElement.owner), all(clist.CElement.removed), all(clist.CElement.next), all(clist.CElement.prev), all(clist.CElement.Value)
+//@   requires wf: wfPool(mem)
+//@   requires member: elem != nil && elem.owner == mem.txs && keyOf(txOf(elem)) == keyOf(tx)
+//@   ensures wf: wfPool(mem)
+//@   ensures gone: !shas(mem.txsMap, keyOf(tx)) && mem.txs.len == old(mem.txs.len) - 1 && mem.txsBytes == old(mem.txsBytes) - len(tx)
+//@   ensures others: forall(k, k != keyOf(tx) ==> (shas(mem.txsMap, k) <==> old(shas(mem.txsMap, k))))
+
+// The transaction cache is a separate object: its operations do not touch the pool (assumed of every TxCache).
+//@ extern mempool.TxCache.Remove
+//@   assigns nothing
+//@ extern mempool.TxCache.Push
+//@   assigns nothing
+//@ extern mempool.TxCache.Has
+//@   assigns nothing
+//@ extern mempool.TxCache.Reset
+//@   assigns nothing
+
+// The pre/post check hooks are application-supplied pure predicates on (tx, response): they do not touch the pool.
+//@ extern CListMempool.postCheck
+//@   assigns nothing
+//@ extern CListMempool.preCheck
+//@   assigns nothing
+
+// First-time CheckTx response: the pool stays well formed and within its limits, whatever the response.
+//@ func CListMempool.resCbFirstTime
+//@   checks allocwf
+//@   requires wf: wfPool(mem) && withinLimits(mem)
+//@   ensures wf: wfPool(mem)
+//@   ensures limits: withinLimits(mem)
+
+//@ func CListMempool.ReapMaxTxs
+//@   requires mem.txs != nil
+//@   ensures count: max >= 0 ==> len(result) <= max
+//@   ensures countall: max < 0 ==> len(result) <= mem.txs.len
+//@   loop 1 invariant cnt: 0 <= max && len(txs) <= max && (old(max) >= 0 ==> max == old(max)) && (old(max) < 0 ==> max == mem.txs.len)
+
+//@ func CListMempool.RemoveTxByKey
+//@   requires wf: wfPool(mem)
+//@   ensures wf: wfPool(mem)
+//@   ensures gone: result == nil ==> !shas(mem.txsMap, txKey)
+
+// After an update no committed transaction is left in the pool, and the pool stays well formed.
+//@ func CListMempool.Update
+//@   requires wf: wfPool(mem) && withinLimits(mem)
+//@   requires resp: len(deliverTxResponses) == len(txs) && forall(i, 0, len(txs), deliverTxResponses[i] != nil)
+//@   ensures wf: wfPool(mem)
+//@   ensures gone: forall(i, 0, len(txs), !shas(mem.txsMap, keyOf(txs[i])))
+//@   ensures limits: withinLimits(mem)
+//@   loop 1 invariant idx: 0 <= rangeindex + 1 && rangeindex + 1 <= len(txs)
+//@   loop 1 invariant wf: wfPool(mem) && mem.txs.len <= old(mem.txs.len) && mem.txsBytes <= old(mem.txsBytes)
+//@   loop 1 invariant gone: forall(i, 0, rangeindex + 1, !shas(mem.txsMap, keyOf(txs[i])))
+
+// ASSUMED (trusted): issuing the recheck requests only ever removes transactions (through resCbRecheck, whose own
+// contract is verified below) and leaves the pool well formed. The asynchronous ABCI connection is not modelled.
+//@ func CListMempool.recheckTxs
+//@   trusted
+//@   assigns mem.recheckCursor, mem.recheckEnd, mem.txsBytes, mem.notifiedTxsAvailable, syncmaps, all(clist.CList.len), all(clist.CList.head), all(clist.CList.tail), all(clist.CElement.owner), all(clist.CElement.removed), all(clist.CElement.next), all(clist.CElement.prev)
+//@   ensures wf: wfPool(mem)
+//@   ensures only_removals: forall(k, shas(mem.txsMap, k) ==> old(shas(mem.txsMap, k)))
+//@   ensures shrink: mem.txs.len <= old(mem.txs.len) && mem.txsBytes <= old(mem.txsBytes)
+
+// ---- reaping ----
+//@ import types github.com/tendermint/tendermint/types
+
+// protoSize(tx): the size types.ComputeProtoSizeForTxs reports for the single transaction tx.
+//@ spec func protoSize(tx []byte) int64
+//@ spec func sumSize(txs []types.Tx, n int) int64 = ite(n <= 0, 0, sumSize(txs, n-1) + protoSize(txs[n-1]))
+
+// sumSize depends only on the first n elements (two-state: old(...) is any other heap).
+//@ lemma sumSizeFrame(a []types.Tx, b []types.Tx, n int)
+//@   requires forall(i, 0, n, old(a[i]) == b[i])
+//@   ensures old(sumSize(a, n)) == sumSize(b, n)
+//@   induction on n
+
+//@ extern types.ComputeProtoSizeForTxs
+//@   requires one: len(txs) == 1
+//@   assigns nothing
+//@   ensures size: result == protoSize(txs[0]) && result >= 0
+
+//@ func CListMempool.ReapMaxBytesMaxGas
+//@   uses sumSizeFrame
+//@   requires mem.txs != nil
+//@   ensures bytes: maxBytes > -1 ==> sumSize(result, len(result)) <= maxBytes
+//@   loop 1 invariant bytes: (maxBytes > -1 ==> runningSize <= maxBytes) && runningSize == sumSize(txs, len(txs)) && runningSize >= 0
+//@   loop 1 invariant gas: maxGas > -1 ==> totalGas <= maxGas
+
+// Recheck response: only removals, pool stays well formed; a transaction the application now rejects is removed.
+//@ import abci github.com/tendermint/tendermint/abci/types
+//@   # (rejected) when the response is for the transaction at the recheck cursor and the application's code is not OK, it is gone
+//@ func CListMempool.resCbRecheck
+//@   requires wf: wfPool(mem) && withinLimits(mem)
+//@   requires cursor: mem.recheckCursor != nil && mem.recheckCursor.owner == mem.txs
+//@   ensures wf: wfPool(mem) && withinLimits(mem)
+//@   ensures only_removals: forall(k, shas(mem.txsMap, k) ==> old(shas(mem.txsMap, k)))
+//@   ensures rejected: (typeis(res.Value, *abci.Response_CheckTx) && typeis(req.Value, *abci.Request_CheckTx) &&
+//@     | cast(*abci.Response_CheckTx, payload(res.Value)).CheckTx.Code != 0 &&
+//@     | cast(*abci.Request_CheckTx, payload(req.Value)).CheckTx.Tx == old(txOf(mem.recheckCursor)))
+//@     | ==> !shas(mem.txsMap, keyOf(old(txOf(mem.recheckCursor))))
+//@   loop 1 invariant cur: mem.recheckCursor != nil && mem.recheckCursor.owner == mem.txs && memTx == cast(*mempoolTx, payload(mem.recheckCursor.Value))
+//@   loop 1 invariant same: mem.recheckCursor == old(mem.recheckCursor) || cast(*abci.Request_CheckTx, payload(req.Value)).CheckTx.Tx != old(txOf(mem.recheckCursor))
